@@ -63,22 +63,7 @@ pub open spec fn res_view(s: Seq<(Rc<String>, Option<JsonValue>)>) -> Seq<(Strin
 }
 
 
-// what `build` produces from the selected results: an object with one member per present result, in selection order
-// (a repeated title overwrites the earlier value in place — IndexMap::insert)
-pub open spec fn build_entries(res: Seq<(String, Option<JsonValue>)>) -> Seq<(String, JsonValue)>
-    decreases res.len()
-{
-    if res.len() == 0 { Seq::empty() } else {
-        let init = build_entries(res.drop_last());
-        match res.last().1 { Some(v) => im_insert(init, res.last().0, v), None => init }
-    }
-}
-
-pub open spec fn first_selected(res: Seq<(String, Option<JsonValue>)>, name: String) -> Option<JsonValue>
-    decreases res.len()
-{
-    if res.len() == 0 { None } else if res[0].0 == name { res[0].1 } else { first_selected(res.drop_first(), name) }
-}
+//@@ include lemmas/ctx_spec.rs
 
 impl Context {
     // ---- ghost view: everything an expression can observe
